@@ -12,6 +12,10 @@ REG = {
         "rule": "random type trees (depth 1-4: every primitive width 1..64, voids, fixed/variable arrays with capacities at the 2**8/2**16/2**32/2**64 "
                 "boundaries, structures, unions incl. 255..258 variants, delimited types with admissible and inadmissible extents) built through the "
                 "public constructors; queries: alignment, extent, min/max/residues/expansion of bit_length_set, prefix/tag/header widths; "
+                "plus pools of 2-4 definitions sharing sub-objects (one object handed to several constructors / one DSDL file referred to by several "
+                "others, incl. definitions that print `_offset_`) with scripts of 4-16 queries on the definitions and their members in varied orders "
+                "(aggregate first, member first, random; numerical expansion of sets and field offsets and analytical queries; types built on "
+                "already-queried objects): every answer must be the Specification's value of that type alone; "
                 "non-trivial = accepted type of depth >= 1 with at least one query; distinct = distinct (type, queries)",
         "technique": "Lean 4 theorems over an executable layout model (structural induction over all type trees), re-checked on every run against Lean definitions translated from the constructors' Python source (py2lean + bridge theorems) + differential correspondence with the real constructors",
         "level_text": "For the modelled type constructors it is proved in Lean 4, for all type trees, that the bit length set expression built by the library denotes the "
@@ -27,7 +31,11 @@ REG = {
         "suites": [("layout", (1200, 40000))],
         "rule": "random composite types (as for C02) x 1-2 base offset sets each (aligned or not, single or multi-valued) x every field position; "
                 "fixed-length arrays of <= 12 elements for element offsets; `_offset_` at a random position and after the last field, and "
-                "`_bit_length_` / `_extent_`, evaluated by the real parser on rendered DSDL text; non-trivial = accepted type of depth >= 1 with a query",
+                "`_bit_length_` / `_extent_`, evaluated by the real parser on rendered DSDL text; definition programs: one message / service "
+                "definition (padding-rich structures, unions, sealed or delimited) in which `_offset_` is evaluated 2-8 times - at the very start, "
+                "before and after padding fields, constants, comments, regular fields, on both sides of `---`, repeatedly after the last union "
+                "variant, twice in one expression, with member definitions that evaluate `_offset_` themselves - each evaluation compared with the "
+                "real position set at that point; the shared-object pools of C02; non-trivial = accepted type of depth >= 1 with a query",
         "technique": "Lean 4 theorems over the executable offset model, re-checked on every run against Lean definitions translated from the iterate_fields_with_offsets generators' Python source (py2lean + bridge theorems) + differential correspondence with iterate_fields_with_offsets / DSDL intrinsics",
         "level_text": "Proved in Lean 4 for all composites, base offset sets and field positions: the offset expressions built by iterate_fields_with_offsets / "
                       "enumerate_elements_with_offsets denote exactly the specified start positions (previous start + any previous length, padded to the field's alignment), one per field in order; "
